@@ -23,7 +23,7 @@ theorem drop_skip {a b : Bytes} {n : Nat} (h : a.length ≤ n) : (a ++ b).drop n
   rw [List.drop_append, List.drop_eq_nil_of_le h, List.nil_append]
 
 theorem etherTypeR_length (m : List RLayer) : (etherTypeR m).length = 2 := by
-  unfold etherTypeR; split <;> rfl
+  unfold etherTypeR; split <;> first | rfl | (rename_i tp _ _; cases tp <;> rfl)
 
 /-! ### the chain of extension headers -/
 
